@@ -175,12 +175,19 @@ def run_property(prop, tier, seed, replay=None, write_evidence=True, verbose=Fal
             if o.detail:
                 print(f"  detail: {json.dumps(o.detail)[:800]}")
         rc = 1
+    ctl = []
+    if tier == "thorough" and not os.environ.get("VERIF_NO_CONTROLS"):
+        import controls
+        ctl = controls.run(prop, reports and Ctx(prop, tier, seed).repo, set(known_keys))
+        for c in ctl:
+            if c["status"] == "missed":
+                print(f"SELFTEST-MISS property={prop} control={c['control']}: recorded breaking change is no longer detected (checker weakness, not a property violation)")
     wall = time.time() - t0
     if write_evidence:
-        write_ev(prop, mod, tier, seed, reports, obs, listed, unlisted, infos, wall)
+        write_ev(prop, mod, tier, seed, reports, obs, listed, unlisted, infos, wall, ctl)
     n_ok = sum(1 for o in obs if o.ok)
     print(f"{prop} [{tier}] obligations={len(obs)} discharged={n_ok} known-findings={len(listed)} violations={len(unlisted)} "
-          f"configs={','.join(c for c, _ in reports)} wall={wall:.1f}s")
+          f"configs={','.join(c for c, _ in reports)}" + (f" controls={sum(1 for c in ctl if c['status'].startswith('caught'))}/{len(ctl)}" if ctl else "") + f" wall={wall:.1f}s")
     if verbose:
         for o in obs:
             print(("  ok   " if o.ok else "  FAIL ") + o.key + "  @" + o.where + "  " + o.what)
@@ -194,7 +201,7 @@ def _strip_cfg(k):
     return k.split("@")[0]
 
 
-def write_ev(prop, mod, tier, seed, reports, obs, listed, unlisted, infos, wall):
+def write_ev(prop, mod, tier, seed, reports, obs, listed, unlisted, infos, wall, ctl=()):
     rep0 = reports[0][1]
     level = getattr(mod, "LEVEL", "other")
     nontriv = {o.key for o in obs if o.nontrivial}
@@ -231,6 +238,11 @@ def write_ev(prop, mod, tier, seed, reports, obs, listed, unlisted, infos, wall)
         "facts": infos,
         "exhaustive": bool(getattr(mod, "EXHAUSTIVE", False)),
     }
+    if ctl:
+        cov["positive_controls"] = {
+            "what": "recorded breaking changes (mutants/, seeded/) applied to a scratch copy of the analysed tree and re-analysed statically; 'caught' = the recorded rule key fired again",
+            "caught": sum(1 for c in ctl if c["status"] == "caught"), "caught_by_other_key": sum(1 for c in ctl if c["status"] == "caught-by-other-key"),
+            "missed": sum(1 for c in ctl if c["status"] == "missed"), "skipped": sum(1 for c in ctl if c["status"] == "skipped"), "results": list(ctl)}
     ev = {
         "property_id": prop,
         "tier": tier,
